@@ -199,6 +199,9 @@ func c16Cands(pred string, a []*term.Term, fr *c16Fresh, lim int) ([][]*term.Ter
 			var rs []rune
 			for _, e := range es {
 				r, ok := elem(e)
+				if !ok && !chars && e.K == term.KInt {
+					return nil, c16Gray // an integer that is not a character code: representation_error(character_code)
+				}
 				if !ok {
 					return nil, c16Out
 				}
@@ -217,7 +220,10 @@ func c16Cands(pred string, a []*term.Term, fr *c16Fresh, lim int) ([][]*term.Ter
 			}
 			add(a[0], term.I(int64(rs[0])))
 		case c16IsVar(a[0]):
-			if !c16IsInt(a[1]) || a[1].I <= 0 || a[1].I > utf8.MaxRune || !utf8.ValidRune(rune(a[1].I)) {
+			if c16IsInt(a[1]) && (a[1].I < 0 || a[1].I > utf8.MaxRune || !utf8.ValidRune(rune(a[1].I))) {
+				return nil, c16Gray // an integer that is not a character code: representation_error(character_code)
+			}
+			if !c16IsInt(a[1]) || a[1].I <= 0 {
 				return nil, c16Out
 			}
 			add(term.A(string(rune(a[1].I))), a[1])
@@ -1095,6 +1101,12 @@ func (g *c16Gen) gray() []*c16Scn {
 		out = append(out, &c16Scn{Pred: "functor", Family: fam, Choices: [][]*term.Term{{c16V(0)}, {na[0]}, {na[1]}}})
 	}
 	out = append(out, &c16Scn{Pred: "succ", Family: fam, Choices: [][]*term.Term{{term.I(math.MaxInt64)}, {c16V(1), term.I(0), term.I(math.MaxInt64), term.I(math.MinInt64 + 0)}}})
+	// integers that are not character codes: negative, surrogates, beyond U+10FFFF, and integers whose low 32 bits are a
+	// character code (a conversion to a 32-bit rune must not make them one)
+	for _, n := range c16Ints(-1, -97, 0xd800, 0xdbff, 0xdc00, 0xdfff, 0x110000, 1<<31, 1<<32, 1<<32+97, 1<<32+0xe9, 1<<33+0x1f600, 1<<62+97, math.MaxInt64, math.MinInt64, math.MinInt64+97, -1<<32+97) {
+		out = append(out, &c16Scn{Pred: "char_code", Family: fam, Choices: [][]*term.Term{{c16V(0)}, {n}}},
+			&c16Scn{Pred: "atom_codes", Family: fam, Choices: [][]*term.Term{{c16V(0)}, {term.L(n), term.L(term.I(97), n), term.L(n, term.I(0xe9), term.I(98))}}})
+	}
 	return out
 }
 
